@@ -62,7 +62,8 @@ class C04(Prop):
             probes = [g.gint(rng.range(0, 3)) for _ in range(rng.range(0, 4))]
             if not cond.has_big_range(c) and not any(cond.has_big_range(p) for p in probes):
                 break
-        case = {"mem": mem.hex(), "cond": c, "probes": probes, "ext_vals": [ext_vals[0], ext_vals[1].hex()]}
+        case = {"mem": mem.hex(), "cond": c, "probes": probes, "ext_vals": [ext_vals[0], ext_vals[1].hex()],
+                "match_max_length": rng.choice([512, 512, 0, 1, 2])}
         return json.loads(json.dumps(case, default=lambda b: list(b)))
 
     def generate(self, ctx, rng, n):
@@ -90,7 +91,8 @@ class C04(Prop):
     def harness_case(self, case):
         return {"rules": [{"src": self.rules_text(case)}], "console": True,
                 "csymbols": [{"name": "ext_i", "int": case["ext_vals"][0]}, {"name": "ext_s", "bytes": case["ext_vals"][1]}],
-                "params": {"compute_full_matches": True}, "input": {"mem": case["mem"]}}
+                "params": {"compute_full_matches": True, "match_max_length": case.get("match_max_length", 512)},
+                "input": {"mem": case["mem"]}}
 
     def execute(self, ctx, cases):
         return core.harness_run(ctx.binp, "scan", [self.harness_case(c) for c in cases])
